@@ -394,6 +394,9 @@ func (w *tmWorld) apply(op kernel.Op) {
 		if w.host.InBlock {
 			return
 		}
+		if (int64(w.host.Height)+op.Arg(0))%3 == 1 {
+			genfault.Restart(w.rec, w.host, "tm")
+		}
 		genfault.Run(w.rec, w.host, int64(w.host.Height)+op.Arg(0))
 		issues := w.host.ModuleRoundTrip()
 		w.rec.Fault("node.export_roundtrip")
